@@ -330,6 +330,13 @@ Theorem c03_mem_route_correct_intact :
 Proof. exact sw_m_redirect_intact_correct. Qed.
 Print Assumptions c03_mem_route_correct_intact.
 
+(** LayoutSwapper.transpose with a spare buffer: the source array afterwards is the source array given (all cells) *)
+Theorem c03_source_intact :
+  forall (V : Type) (dflt : V) (Nl nprocsT : list nat) (d' : nat) (cur : sw_node) (steps : list sw_node) (src dst buf : mems V),
+  fst (fst (sw_m_transpose V dflt Nl nprocsT d' cur steps true src dst buf)) = src.
+Proof. intros. apply transpose_m_src_same. Qed.
+Print Assumptions c03_source_intact.
+
 (** non-vacuity: the gather of c03_example_gather on arrays of 6 cells filled with 7 / 8 / 9 beyond the block.
     Without a buffer dest becomes a copy of the whole source array (its tail holds the 7s); with one the
     source is intact, dest keeps its 8s and buf holds the gathered padded blocks. *)
